@@ -447,6 +447,7 @@ func runC19(r *hk.Run) {
 	runOptionRefs(r, e)
 	runFingerprint(r, e)
 	runReExec(r, e, rng, r.Scale(100, 2000))
+	runLive(r, e, rng, r.Scale(60, 1500))
 	n := r.Scale(320, 8000)
 	for i := 0; i < n; i++ {
 		ln := 25
